@@ -12,7 +12,7 @@
      LoadModels    only with --load_models: one load_model per file, in the order given             (:114-116)
      MakeModel     otherwise: PercolatorModel(train_fdr, max_iter, direction, override, rng = seed) (:118-126)
      Brew          brew(datasets, model(s), test_fdr, folds, max_workers, subset_max_train, ensemble, rng = seed)  (:129-138)
-     Mkdir         dest_dir.mkdir(exist_ok)                                                          (:141-142)
+     Mkdir         dest_dir.mkdir(exist_ok) -- observed as "the destination exists when Confidence starts"  (:141-142)
      Confidence    assign_confidence(psms, scores and descs AS RETURNED BY BREW, eval_fdr = test_fdr, dest_dir,
                    file_root + ".", prefixes, decoys = keep_decoys, deduplication = not skip_deduplication,
                    do_rollup = not skip_rollup, proteins AS RETURNED BY read_fasta, PEP / q-value algorithms, sqlite) (:149-166)
@@ -80,14 +80,14 @@ Init == opt \in Opts /\ pc = "start" /\ calls = <<>>
 Do(c, next) == calls' = Append(calls, c) /\ pc' = next /\ UNCHANGED opt
 Seed == pc = "start" /\ Do(RecvSeed, "seeded")
 ReadPin == pc = "seeded" /\ Do(RecvReadPin, "parsed")
-Plan == pc = "parsed" /\ Do(RecvPlan, IF opt.proteins THEN "fasta" ELSE "model")
+Plan == pc = "parsed" /\ pc' = (IF opt.proteins THEN "fasta" ELSE "model") /\ UNCHANGED <<opt, calls>>   \* internal: the prefixes travel to Confidence
 ReadFasta == pc = "fasta" /\ Do(RecvFasta, "model")
 NLoaded == Cardinality({i \in 1..Len(calls) : calls[i].st = "LoadModel"})
 LoadModel == pc = "model" /\ opt.load > 0 /\ NLoaded < opt.load /\ Do(RecvLoad(NLoaded + 1), "model")
 MakeModel == pc = "model" /\ opt.load = 0 /\ Do(RecvMake, "brew")
 ModelsReady == pc = "model" /\ opt.load > 0 /\ NLoaded = opt.load /\ pc' = "brew" /\ UNCHANGED <<opt, calls>>
 Brew == pc = "brew" /\ Do(RecvBrew, IF Mut = "save_before_confidence" /\ opt.save THEN "save" ELSE "mkdir")
-Mkdir == pc = "mkdir" /\ IF opt.dest = "" THEN pc' = "conf" /\ UNCHANGED <<opt, calls>> ELSE Do(RecvMkdir, "conf")
+Mkdir == pc = "mkdir" /\ Do(RecvMkdir, "conf")          \* the default destination is the working directory: mkdir(exist_ok) all the same
 Confidence == pc = "conf" /\ Do(RecvConf, IF Mut = "save_before_confidence" THEN "done" ELSE IF opt.save THEN "save" ELSE "done")
 NSaved == Cardinality({i \in 1..Len(calls) : calls[i].st = "SaveModel"})
 SaveModel == pc = "save" /\ IF NSaved < NModels THEN Do(RecvSave(NSaved + 1), "save")
@@ -109,7 +109,7 @@ Expected(o, c) ==
      [] c.st = "Brew" -> /\ c.ndatasets = o.nfiles /\ c.model = (IF o.load > 0 THEN "loaded" ELSE "made") /\ c.nmodels = o.load
                          /\ c.test_fdr = o.test_fdr /\ c.folds = o.folds /\ c.workers = o.workers /\ c.cap = o.cap
                          /\ c.ensemble = o.ensemble /\ c.seeded /\ c.seed = o.seed
-     [] c.st = "Mkdir" -> o.dest # "" /\ c.dest = o.dest
+     [] c.st = "Mkdir" -> c.dest = o.dest
      [] c.st = "Confidence" -> /\ c.from_brew /\ c.workers = o.workers /\ c.eval_fdr = o.test_fdr /\ c.dest = o.dest
                                /\ c.file_root = (IF o.file_root = "" THEN "" ELSE o.file_root \o ".")
                                /\ c.prefixes = ExpPrefixes(o) /\ c.decoys = o.keep_decoys /\ c.dedup = ~o.skip_dedup
@@ -128,7 +128,7 @@ Complete == pc = "done" =>
    /\ Count("Seed") = 1 /\ Count("ReadPin") = 1 /\ Count("Brew") = 1 /\ Count("Confidence") = 1
    /\ Count("ReadFasta") = (IF opt.proteins THEN 1 ELSE 0)
    /\ Count("LoadModel") = opt.load /\ Count("MakeModel") = (IF opt.load = 0 THEN 1 ELSE 0)
-   /\ Count("Mkdir") = (IF opt.dest = "" THEN 0 ELSE 1)
+   /\ Count("Mkdir") = 1
    /\ Count("SaveModel") = (IF opt.save THEN NModels ELSE 0)
    /\ {calls[i].k : i \in Pos("SaveModel")} = (IF opt.save THEN 1..NModels ELSE {})
    /\ {calls[i].k : i \in Pos("LoadModel")} = 1..opt.load
